@@ -13,5 +13,5 @@ CONSTANTS
   SimProfile = "mixed"
   TxShapes = "small"
 VIEW View
-INVARIANTS TypeOK HeadValidated HeadMaxWork BodiesValid UnspentIsReplay IndexConsistent NoDupUnspent SpentIdxInv SumsInv MaturityLockInv OrphansRetried OnlyValidRemembered
+INVARIANTS TypeOK HeadValidated HeadMaxWork BodiesValid UnspentIsReplay IndexConsistent NoDupUnspent EnumInv SpentIdxInv SumsInv MaturityLockInv OrphansRetried OnlyValidRemembered
 PROPERTIES MCHeadMonotone MCRejectLeavesState
